@@ -96,10 +96,11 @@ Record fixes := mkF {
   fx_settings : bool;     (* C16-fix-2 parse_settings *)
   fx_pushpromise : bool;  (* C16-fix-3 PUSH_PROMISE push id *)
   fx_trunc : bool;        (* C14-fix-1 stream ends inside a frame *)
-  fx_endmark : bool       (* C14-fix-2 end of stream after a frame without end marker *)
+  fx_endmark : bool;      (* C14-fix-2 end of stream after a frame without end marker *)
+  fx_pushblock : bool     (* C14-fix-3 PUSH_PROMISE waiting for the encoder stream *)
 }.
-Definition all_fixed : fixes := mkF true true true true true.
-Definition unfixed : fixes := mkF false false false false false.
+Definition all_fixed : fixes := mkF true true true true true true.
+Definition unfixed : fixes := mkF false false false false false false.
 
 (* ---------------------------------------------------------------- H3Stream *)
 Record hstream := mkS {
@@ -113,20 +114,24 @@ Record hstream := mkS {
   s_clen : Z;                  (* content_length *)
   s_expect : option Z;         (* expected_content_length *)
   s_push : option Z;           (* push_id *)
-  s_stype : option Z           (* stream_type (unidirectional streams) *)
+  s_stype : option Z;          (* stream_type (unidirectional streams) *)
+  s_btype : option Z;          (* blocked_frame_type (C14-fix-3) *)
+  s_bpush : option Z           (* blocked_push_id (C14-fix-3) *)
 }.
-Definition new_stream (sid : Z) : hstream := mkS sid [] None None false false 0 0 None None None.
+Definition new_stream (sid : Z) : hstream := mkS sid [] None None false false 0 0 None None None None None.
 
-Definition set_buf st b := mkS (s_id st) b (s_cur st) (s_session st) (s_blocked st) (s_ended st) (s_hstate st) (s_clen st) (s_expect st) (s_push st) (s_stype st).
-Definition set_cur st c := mkS (s_id st) (s_buf st) c (s_session st) (s_blocked st) (s_ended st) (s_hstate st) (s_clen st) (s_expect st) (s_push st) (s_stype st).
-Definition set_session st x := mkS (s_id st) (s_buf st) (s_cur st) x (s_blocked st) (s_ended st) (s_hstate st) (s_clen st) (s_expect st) (s_push st) (s_stype st).
-Definition set_blocked st x := mkS (s_id st) (s_buf st) (s_cur st) (s_session st) x (s_ended st) (s_hstate st) (s_clen st) (s_expect st) (s_push st) (s_stype st).
-Definition set_ended st x := mkS (s_id st) (s_buf st) (s_cur st) (s_session st) (s_blocked st) x (s_hstate st) (s_clen st) (s_expect st) (s_push st) (s_stype st).
-Definition set_hstate st x := mkS (s_id st) (s_buf st) (s_cur st) (s_session st) (s_blocked st) (s_ended st) x (s_clen st) (s_expect st) (s_push st) (s_stype st).
-Definition set_clen st x := mkS (s_id st) (s_buf st) (s_cur st) (s_session st) (s_blocked st) (s_ended st) (s_hstate st) x (s_expect st) (s_push st) (s_stype st).
-Definition set_expect st x := mkS (s_id st) (s_buf st) (s_cur st) (s_session st) (s_blocked st) (s_ended st) (s_hstate st) (s_clen st) x (s_push st) (s_stype st).
-Definition set_push st x := mkS (s_id st) (s_buf st) (s_cur st) (s_session st) (s_blocked st) (s_ended st) (s_hstate st) (s_clen st) (s_expect st) x (s_stype st).
-Definition set_stype st x := mkS (s_id st) (s_buf st) (s_cur st) (s_session st) (s_blocked st) (s_ended st) (s_hstate st) (s_clen st) (s_expect st) (s_push st) x.
+Definition set_buf st b := mkS (s_id st) b (s_cur st) (s_session st) (s_blocked st) (s_ended st) (s_hstate st) (s_clen st) (s_expect st) (s_push st) (s_stype st) (s_btype st) (s_bpush st).
+Definition set_cur st c := mkS (s_id st) (s_buf st) c (s_session st) (s_blocked st) (s_ended st) (s_hstate st) (s_clen st) (s_expect st) (s_push st) (s_stype st) (s_btype st) (s_bpush st).
+Definition set_session st x := mkS (s_id st) (s_buf st) (s_cur st) x (s_blocked st) (s_ended st) (s_hstate st) (s_clen st) (s_expect st) (s_push st) (s_stype st) (s_btype st) (s_bpush st).
+Definition set_blocked st x := mkS (s_id st) (s_buf st) (s_cur st) (s_session st) x (s_ended st) (s_hstate st) (s_clen st) (s_expect st) (s_push st) (s_stype st) (s_btype st) (s_bpush st).
+Definition set_ended st x := mkS (s_id st) (s_buf st) (s_cur st) (s_session st) (s_blocked st) x (s_hstate st) (s_clen st) (s_expect st) (s_push st) (s_stype st) (s_btype st) (s_bpush st).
+Definition set_hstate st x := mkS (s_id st) (s_buf st) (s_cur st) (s_session st) (s_blocked st) (s_ended st) x (s_clen st) (s_expect st) (s_push st) (s_stype st) (s_btype st) (s_bpush st).
+Definition set_clen st x := mkS (s_id st) (s_buf st) (s_cur st) (s_session st) (s_blocked st) (s_ended st) (s_hstate st) x (s_expect st) (s_push st) (s_stype st) (s_btype st) (s_bpush st).
+Definition set_expect st x := mkS (s_id st) (s_buf st) (s_cur st) (s_session st) (s_blocked st) (s_ended st) (s_hstate st) (s_clen st) x (s_push st) (s_stype st) (s_btype st) (s_bpush st).
+Definition set_push st x := mkS (s_id st) (s_buf st) (s_cur st) (s_session st) (s_blocked st) (s_ended st) (s_hstate st) (s_clen st) (s_expect st) x (s_stype st) (s_btype st) (s_bpush st).
+Definition set_stype st x := mkS (s_id st) (s_buf st) (s_cur st) (s_session st) (s_blocked st) (s_ended st) (s_hstate st) (s_clen st) (s_expect st) (s_push st) x (s_btype st) (s_bpush st).
+Definition set_btype st x := mkS (s_id st) (s_buf st) (s_cur st) (s_session st) (s_blocked st) (s_ended st) (s_hstate st) (s_clen st) (s_expect st) (s_push st) (s_stype st) x (s_bpush st).
+Definition set_bpush st x := mkS (s_id st) (s_buf st) (s_cur st) (s_session st) (s_blocked st) (s_ended st) (s_hstate st) (s_clen st) (s_expect st) (s_push st) (s_stype st) (s_btype st) x.
 
 Definition is_nil {A} (l : list A) : bool := match l with [] => true | _ => false end.
 Definition is_none {A} (o : option A) : bool := match o with None => true | _ => false end.
@@ -138,7 +143,7 @@ Definition check_cl (st : hstream) : bool :=
 (* ---------------------------------------------------------------- _handle_request_or_push_frame *)
 Inductive hres :=
 | HVal (evs : list event) (st : hstream)
-| HBlocked                       (* pylsqpack.StreamBlocked propagates *)
+| HBlocked (st : hstream)        (* pylsqpack.StreamBlocked propagates *)
 | HErr (code : Z)
 | HExn (k : Z).
 
@@ -162,7 +167,7 @@ Definition handle_rp_frame (fx : fixes) (O : oracle) (client : bool)
   else if t =? 1 then
     if s_hstate st =? 2 then HErr H3_FRAME_UNEXPECTED else
     match (match data with Some d => o_dec O (s_id st) d | None => o_resume O (s_id st) end) with
-    | DBlocked => HBlocked
+    | DBlocked => HBlocked st
     | DFailed => HErr QPACK_DECOMPRESSION_FAILED
     | DHeaders hid =>
         let kind := if s_hstate st =? 0 then (if client then 1 else 0) else 2 in
@@ -176,13 +181,26 @@ Definition handle_rp_frame (fx : fixes) (O : oracle) (client : bool)
   else if (t =? 5) && is_none (s_push st) then
     if negb client then HErr H3_FRAME_UNEXPECTED else
     match data with
-    | None => HExn X_INTERNAL
+    | None =>
+        (* only with C14-fix-3: resume a PUSH_PROMISE that waited for the encoder stream *)
+        match (if fx_pushblock fx then s_bpush st else None) with
+        | None => HExn X_INTERNAL
+        | Some pid =>
+            match o_resume O (s_id st) with
+            | DBlocked => HBlocked st
+            | DFailed => HErr QPACK_DECOMPRESSION_FAILED
+            | DHeaders hid =>
+                if negb (fst (o_val O 3 hid)) then HErr H3_MESSAGE_ERROR else
+                endmark fx st ended [EPush (s_id st) pid hid]
+            end
+        end
     | Some d =>
         match pull_uint_var d with
         | None => if fx_pushpromise fx then HErr H3_FRAME_ERROR else HExn X_PUSHPROMISE_READ
         | Some (pid, rest) =>
+            let st := if fx_pushblock fx then set_bpush st (Some pid) else st in
             match o_dec O (s_id st) rest with
-            | DBlocked => HBlocked
+            | DBlocked => HBlocked st
             | DFailed => HErr QPACK_DECOMPRESSION_FAILED
             | DHeaders hid =>
                 if negb (fst (o_val O 3 hid)) then HErr H3_MESSAGE_ERROR else
@@ -240,7 +258,7 @@ Fixpoint rq_loop (fuel : nat) (fx : fixes) (O : oracle) (client : bool) (fin : b
           let ended := s_ended st && is_nil b3 && (negb (fx_trunc fx) || is_none cur') in
           match handle_rp_frame fx O client t (Some data) st1 ended with
           | HVal e st2 => rq_loop fuel fx O client fin st2 b3 (evs ++ e)
-          | HBlocked => RVal evs (set_buf (set_blocked st1 true) b3)
+          | HBlocked st2 => RVal evs (set_buf (set_btype (set_blocked st2 true) (if fx_pushblock fx then Some t else s_btype st2)) b3)
           | HErr c => RErr c
           | HExn k => RExn k
           end
@@ -489,12 +507,13 @@ Fixpoint unblock (fx : fixes) (O : oracle) (c : conn) (unb : list Z) (evs : list
       match find_stream sid (c_streams c) with
       | None => SExn X_UNBLOCK_KEY
       | Some s =>
-          match handle_rp_frame fx O (c_client c) 1 None s (s_ended s && is_nil (s_buf s)) with
-          | HBlocked => SExn X_UNBLOCK_BLOCKED
+          let t := if fx_pushblock fx then (match s_btype s with Some t => t | None => -1 end) else 1 in
+          match handle_rp_frame fx O (c_client c) t None s (s_ended s && is_nil (s_buf s)) with
+          | HBlocked _ => SExn X_UNBLOCK_BLOCKED
           | HErr k => SErr k c
           | HExn k => SExn k
           | HVal e s1 =>
-              let s2 := set_blocked s1 false in
+              let s2 := set_btype (set_blocked s1 false) (if fx_pushblock fx then None else s_btype s1) in
               if negb (is_nil (s_buf s2)) then
                 match rq_recv fx O (c_client c) s2 [] (s_ended s2) with
                 | RVal e2 s3 => unblock fx O (set_streams c (put_stream s3 (c_streams c))) rest (evs ++ e ++ e2)
@@ -592,7 +611,7 @@ Fixpoint run (fx : fixes) (c : conn) (tr : list (qevent * oracle)) : list hout :
   end.
 
 (* ---------------------------------------------------------------- executable interface
-   tokens: client dgram fx_maxpush fx_settings fx_pushpromise fx_trunc fx_endmark, then ops:
+   tokens: client dgram fx_maxpush fx_settings fx_pushpromise fx_trunc fx_endmark fx_pushblock, then ops:
      0 sid fin <bytes> <oracle tables>     StreamDataReceived
      1 <bytes>                             DatagramFrameReceived
      2                                     any other event
@@ -708,7 +727,7 @@ Fixpoint exec_h3_ops (fuel : nat) (fx : fixes) (c : conn) (t : list Z) : list Z 
 (* EXTRACT: exec_h3 *)
 Definition exec_h3 (t : list Z) : list Z :=
   match t with
-  | cl :: dg :: f1 :: f2 :: f3 :: f4 :: f5 :: ops =>
-      exec_h3_ops (length ops) (mkF (z2b f1) (z2b f2) (z2b f3) (z2b f4) (z2b f5)) (conn_init (z2b cl) (z2b dg)) ops
+  | cl :: dg :: f1 :: f2 :: f3 :: f4 :: f5 :: f6 :: ops =>
+      exec_h3_ops (length ops) (mkF (z2b f1) (z2b f2) (z2b f3) (z2b f4) (z2b f5) (z2b f6)) (conn_init (z2b cl) (z2b dg)) ops
   | _ => []
   end.
